@@ -186,18 +186,10 @@ def r4(ctx, rep):
                 key = f"gen:{f['path']}:{gen}"
                 if par is None:
                     par = guards.parents(f["body"])
-                # inside a `while <membership test>` loop?
-                cur, loop = n, None
-                while True:
-                    p = par.get(id(cur))
-                    if p is None:
-                        break
-                    if p.get("k") == "while" and (p["body"] is cur or guards._contains(p["body"], cur)):
-                        loop = p
-                        break
-                    cur = p
-                if loop is not None and ("contains(" in show(loop["c"], maxdepth=10)):
-                    rep.ok(key, {"loop": show(loop["c"], maxdepth=8)})
+                # inside a regeneration loop with a membership test? (`while <taken>` or `loop { .. <free> => break .. }`)
+                loop, tests, form = guards.regen_loop(par, n)
+                if loop is not None and tests:
+                    rep.ok(key, {"loop": form, "tests": [t[0] for t in tests]})
                 elif key in rev:
                     rep.ok(key, {"reviewed": rev[key]})
                 else:
@@ -305,18 +297,34 @@ def r9(ctx, rep):
     syn = ctx.syn
     f = syn.fn("postprocess::assign_names", crate="prqlc")
     # role anchor: the set that the regeneration loop of `table_name.gen()` tests
-    loops = [n for n in walk(f["body"]) if n.get("k") == "while" and any(x.get("k") == "mcall" and x["m"] == "gen" for x in walk(n["body"]))]
-    if not loops:
-        raise AnchorMissing("assign_names: `while <taken> { .. table_name.gen() .. }`")
-    tests = [x for lp in loops for x in walk(lp["c"]) if x.get("k") == "mcall" and x["m"] == "contains"]
-    sets = {show(x["r"]) for x in tests}
+    par = guards.parents(f["body"])
+    found = [guards.regen_loop(par, n) for n in walk(f["body"]) if n.get("k") == "mcall" and n["m"] == "gen" and show(n["r"]).endswith("table_name")]
+    found = [x for x in found if x[0] is not None and x[1]]
+    if not found:
+        raise AnchorMissing("assign_names: the loop that regenerates `table_name.gen()` until the name is free")
+    sets = {t[0] for _, tests_, _ in found for t in tests_}
+    loop_keys = [("contains", t[1]) for _, tests_, _ in found for t in tests_]
 
     def whole(a):
         while a.get("k") in ("ref", "paren") or (a.get("k") == "mcall" and a["m"] in ("clone", "as_ref", "unwrap", "cloned", "to_owned") and not a["a"]):
             a = a["e"] if a.get("k") in ("ref", "paren") else a["r"]
         return show(a, maxdepth=4)
-    keys = [(x["m"], whole(x["a"][0])) for n in walk(f["body"]) if n.get("k") == "mcall" for x in [n] if x["m"] in ("contains", "insert") and show(x["r"]) in sets and x["a"]]
-    bad = [k for k in keys if not re.fullmatch(r"\w+\.name", k[1])]
+    # the tested / inserted value is the declaration's whole name: `decl.name` itself, or a variable bound to it (`Some(name)` of `&decl.name`, `break name.clone()`)
+    def is_whole(a):
+        t = whole(a)
+        if re.fullmatch(r"\w+\.name", t):
+            return True
+        if re.fullmatch(r"\w+", t):
+            # a local: bound by matching `<decl>.name` (pattern `Some(x)`), or to the value the regeneration loop breaks with
+            for m_ in walk(f["body"]):
+                if m_.get("k") == "match" and re.fullmatch(r"&?\w+\.name", show(m_["e"])) and any(re.fullmatch(r"Some\(" + t + r"\)", show(a_["pat"])) for a_ in m_["arms"]):
+                    return True
+            d = guards.visible_def_nodes(par, a, t)
+            if d is not None and d.get("init") is not None and d["init"].get("k") == "loop":
+                return all(is_whole(b["e"]) for b in walk(d["init"]) if b.get("k") == "break" and b.get("e") is not None)
+        return False
+    keys = [(x["m"], whole(x["a"][0]), is_whole(x["a"][0])) for n in walk(f["body"]) if n.get("k") == "mcall" for x in [n] if x["m"] in ("contains", "insert") and show(x["r"]) in sets and x["a"]]
+    bad = [k[:2] for k in keys if not k[2]]
     rep.check(len(keys) >= 2 and not bad, "taken-names:whole-ident", f"the set of taken table names of assign_names is tested / filled with {keys}: every key must be the declaration's whole `name` (an Ident with its "
               "schema path). Keyed by the last part, `s.t` and `r.t` clash and the user's table `s.t` is renamed to a generated `table_0`, which does not exist", file=f["file"], line=f["l"], fn=f["path"])
 
